@@ -3,10 +3,8 @@
 package knx
 
 import (
-	"container/list"
 	"time"
 
-	"github.com/vapourismo/knx-go/knx/cemi"
 	"github.com/vapourismo/knx-go/knx/knxnet"
 )
 
@@ -22,13 +20,7 @@ func init() {
 func HarnessC13(a []int) {
 	nS, per, nBusy, pauseMs, waitMs := a[0], a[1], a[2], a[3], a[4]
 	pause := time.Duration(pauseMs) * time.Millisecond
-	sock := newVSock()
-	router := &Router{sock: sock, config: RouterConfig{RetainCount: 4}, inbound: make(chan cemi.Message), retainer: list.New(), postSendPause: pause}
-	serveID := -1
-	go func() {
-		serveID = verifThreadID()
-		router.serve()
-	}()
+	router, in := newRouterEnv(4, pause)
 	returned := 0
 	senderIDs := map[int]bool{}
 	for i := 0; i < nS; i++ {
@@ -36,14 +28,14 @@ func HarnessC13(a []int) {
 		go func() {
 			senderIDs[verifThreadID()] = true
 			for j := 0; j < per; j++ {
-				router.Send(c14Msgs[i*per+j])
+				router.Send(rmsg(i*per + j))
 				returned++
 			}
 		}()
 	}
 	wait := time.Duration(waitMs) * time.Millisecond
 	for b := 0; b < nBusy; b++ {
-		sock.in <- &knxnet.RoutingBusy{WaitTime: wait, Control: uint16(nondetChoice(2))}
+		in <- &knxnet.RoutingBusy{WaitTime: wait, Control: uint16(nondetChoice(2))}
 	}
 	lost := 0
 	if len(a) > 5 && a[5] > 0 {
@@ -53,14 +45,15 @@ func HarnessC13(a []int) {
 		if lost > nS*per {
 			lost = nS * per
 		}
-		sock.in <- &knxnet.RoutingLost{Count: uint16(a[5])}
+		in <- &knxnet.RoutingLost{Count: uint16(a[5])}
 	}
 	verifSleep(int64(10 * time.Second))
 	verifQuiesce()
+	_, stamps := routerSent()
 	verifAssert("C13.every_send_returns", returned == nS*per)
-	verifAssert("C13.all_transmitted", len(sock.log) == nS*per+lost)
-	for i := 1; i < len(sock.stamps); i++ {
-		verifAssert("C13.pacing_gap", sock.stamps[i]-sock.stamps[i-1] >= int64(pause))
+	verifAssert("C13.all_transmitted", len(stamps) == nS*per+lost)
+	for i := 1; i < len(stamps); i++ {
+		verifAssert("C13.pacing_gap", stamps[i]-stamps[i-1] >= int64(pause))
 	}
 	// silent interval: from the instant the server goroutine owns the send lock, nothing is
 	// transmitted for min(wait, 50 ms)
@@ -68,17 +61,19 @@ func HarnessC13(a []int) {
 	if silent > int64(50*time.Millisecond) {
 		silent = int64(50 * time.Millisecond)
 	}
+	// acquisitions of the send lock that are not by a sender goroutine are the server goroutine's:
+	// the first nBusy of them are the busy hand-overs (a later one belongs to the lost indication)
 	busySeen := 0
-	for i := 0; i < verifLockCount(&router.sendMu); i++ {
-		if verifLockThread(&router.sendMu, i) != serveID {
+	for i := 0; i < verifLockLogField(router, "sendMu"); i++ {
+		if senderIDs[verifLockFieldThread(router, "sendMu", i)] {
 			continue
 		}
 		if busySeen == nBusy {
-			break // a later acquisition by the server goroutine belongs to the lost indication (resendLost)
+			break
 		}
 		busySeen++
-		T := verifLockTime(&router.sendMu, i)
-		for _, s := range sock.stamps {
+		T := verifLockFieldTime(router, "sendMu", i)
+		for _, s := range stamps {
 			verifAssert("C13.silent_interval", s <= T || s >= T+silent)
 		}
 	}
@@ -90,18 +85,16 @@ func HarnessC13(a []int) {
 // control word and symbolic random part: the lock is held for min(wait, 50 ms) at least and
 // 50 ms at most, and sending resumes afterwards.
 func HarnessC13Cap(a []int) {
-	sock := newVSock()
-	router := &Router{sock: sock, config: RouterConfig{RetainCount: 4}, inbound: make(chan cemi.Message), retainer: list.New()}
-	go router.serve()
+	router, in := newRouterEnv(4, 0)
 	waitMs := nondetU16()
 	wait := time.Duration(waitMs) * time.Millisecond
-	sock.in <- &knxnet.RoutingBusy{WaitTime: wait, Control: nondetU16()}
+	in <- &knxnet.RoutingBusy{WaitTime: wait, Control: nondetU16()}
 	verifQuiesce() // the server goroutine owns the lock now
-	verifAssert("C13.cap.lock_taken", verifLockCount(&router.sendMu) == 1)
+	verifAssert("C13.cap.lock_taken", verifLockLogField(router, "sendMu") == 1)
 	t0 := verifNow()
-	err := router.Send(c14Msgs[0])
+	err := router.Send(rmsg(0))
 	t1 := verifNow()
-	verifAssert("C13.cap.resumes", err == nil && len(sock.log) == 1)
+	verifAssert("C13.cap.resumes", err == nil && verifNetWrites() == 1)
 	min := int64(wait)
 	if min > int64(50*time.Millisecond) {
 		min = int64(50 * time.Millisecond)
